@@ -283,6 +283,9 @@ Definition fill_patterns := V.Gen.C16Colors.fill_patterns.
 Definition text_transforms := V.Gen.C16Colors.text_transforms.
 Definition fonts := V.Gen.C16Colors.fonts.
 Definition theme_ids : list Z := V.Gen.C16Colors.theme_ids.
+Definition label_positions := V.Gen.C16Colors.label_positions.
+Definition tooltip_positions := V.Gen.C16Colors.tooltip_positions.
+Definition near_constants := V.Gen.C16Colors.near_constants.
 (* literal in compileReserved: dirs := []string{"up", "down", "right", "left"} *)
 Definition directions : list (list N) :=
   [[117;112]; [100;111;119;110]; [114;105;103;104;116]; [108;101;102;116]].
@@ -340,7 +343,9 @@ Inductive kw :=
 | KWidth | KHeight | KTop | KLeft | KGridRows | KGridColumns | KGridGap | KVerticalGap
 | KHorizontalGap | KDirection | KShape
 (* vars.d2-config *)
-| KThemeID | KDarkThemeID | KPad | KSketch | KCenter.
+| KThemeID | KDarkThemeID | KPad | KSketch | KCenter
+(* label.near / icon.near / tooltip.near (compilePosition) *)
+| KLabelNear | KIconNear | KTooltipNear.
 
 Definition atoi_in (v : list N) (p : Z -> bool) : bool :=
   match atoi v with Some z => p z | None => false end.
@@ -384,6 +389,9 @@ Section Accepts.
         end
     | KThemeID | KDarkThemeID =>
         atoi_in v (fun z => existsb (Z.eqb z) theme_ids)
+    (* compilePosition: exact (case-sensitive) map lookup *)
+    | KLabelNear | KIconNear => mem_word v label_positions
+    | KTooltipNear => mem_word v tooltip_positions
     end.
 
   (* where the error is reported when the value is rejected:
@@ -393,6 +401,7 @@ Section Accepts.
   Definition err_class (c : ctx) (k : kw) (v : list N) : N :=
     match c, k with
     | CConfig, _ => 2
+    | _, KLabelNear | _, KIconNear | _, KTooltipNear => 2   (* c.errorf(f.LastPrimaryKey(), `invalid "near" field`) *)
     | CObj, KShape => if is_arrowhead v then 2 else 1
     | _, _ => 1
     end.
@@ -417,3 +426,30 @@ Section Accepts.
     | _ => v
     end.
 End Accepts.
+
+(* ---------------------------------------------------------------- near: CONSTANT on a root-level object *)
+(* lower-case words joined by single hyphens: the shape of every near constant *)
+Definition is_lc (c : N) : bool := (97 <=? c) && (c <=? 122).
+Fixpoint ident_tail (s : list N) (prev_hyphen : bool) : bool :=
+  match s with
+  | [] => negb prev_hyphen
+  | c :: r => if is_lc c then ident_tail r false
+              else if (c =? 45) && negb prev_hyphen then ident_tail r true
+              else false
+  end.
+Definition ident_word (s : list N) : bool :=
+  match s with c :: r => is_lc c && ident_tail r false | [] => false end.
+
+Section Near.
+  (* oracle: d2parser.ParseKey(v) followed by d2graph.Key: the path elements, None on a parse error *)
+  Variable parse_key : list N -> option (list (list N)).
+
+  (* `x.near: V` where x is the only object of the diagram (so V can name no other object and naming
+     x itself is the ancestor error): validateNear accepts iff the FIRST path element is a constant *)
+  Definition near_accepts (v : list N) : bool :=
+    match parse_key v with
+    | Some (h :: _) => mem_word h near_constants
+    | _ => false
+    end.
+  Definition near_stored (v : list N) : option (list (list N)) := parse_key v.
+End Near.
